@@ -34,7 +34,7 @@ static int process_data(xfrm_stream_t *stream, const void *in, sqfs_u32 in_size,
 			int flush_mode)
 {
 	xfrm_stream_bzip2_t *bzip2 = (xfrm_stream_bzip2_t *)stream;
-	sqfs_u32 diff;
+	sqfs_u32 diff, progress;
 	int ret;
 
 	if (!bzip2->initialized) {
@@ -54,7 +54,8 @@ static int process_data(xfrm_stream_t *stream, const void *in, sqfs_u32 in_size,
 	if (flush_mode < 0 || flush_mode >= XFRM_STREAM_FLUSH_COUNT)
 		flush_mode = XFRM_STREAM_FLUSH_NONE;
 
-	while (in_size > 0 && out_size > 0) {
+	while ((in_size > 0 || flush_mode == XFRM_STREAM_FLUSH_FULL) &&
+	       out_size > 0) {
 		bzip2->strm.next_in = (char *)in;
 		bzip2->strm.avail_in = in_size;
 
@@ -78,11 +79,13 @@ static int process_data(xfrm_stream_t *stream, const void *in, sqfs_u32 in_size,
 		in = (const char *)in + diff;
 		in_size -= diff;
 		*in_read += diff;
+		progress = diff;
 
 		diff = (out_size - bzip2->strm.avail_out);
 		out = (char *)out + diff;
 		out_size -= diff;
 		*out_written += diff;
+		progress += diff;
 
 		if (ret == BZ_STREAM_END) {
 			if (bzip2->compress) {
@@ -94,6 +97,9 @@ static int process_data(xfrm_stream_t *stream, const void *in, sqfs_u32 in_size,
 			bzip2->initialized = false;
 			return XFRM_STREAM_END;
 		}
+
+		if (progress == 0)
+			break;
 	}
 
 	return XFRM_STREAM_OK;
